@@ -279,7 +279,8 @@ def NML(pairs):
 
 
 for i, op in enumerate(("union", "intersection", "difference", "symmetric_difference")):
-    add("c08_" + op, "c08::h_setop::<{N}, {M}, {S}>(%d, {A}, {B})" % i, ["C08", "C06"], NML([(1, 1), (2, 1)]), NML([(2, 2), (3, 2), (2, 3)]),
+    add("c08_" + op, "c08::h_setop::<{N}, {M}, {S}>(%d, {A}, {B})" % i, ["C08", "C06"], NML([(1, 1), (2, 1)]),
+        NML([(1, 2), (2, 2)]) + [{"N": n, "M": m, "S": n + m, "A": a, "B": b} for n, m, a, b in ((3, 2, 3, 2), (3, 2, 2, 2), (3, 2, 3, 1), (2, 3, 2, 3), (2, 3, 2, 2), (2, 3, 1, 3))],
         unwind="max(N,M)+2", fn="Set::%s and its iterator (next, size_hint)" % op, shape="S_u8", timeout="30m")
     add("c08_fold_" + op, "c08::h_setop_fold::<{N}, {M}, {S}>(%d, {A}, {B})" % i, ["C08"], [{"N": 1, "M": 1, "S": 2, "A": 1, "B": 1}, {"N": 2, "M": 1, "S": 3, "A": 2, "B": 1}],
         NML([(2, 1), (2, 2)]), unwind="max(N,M,S)+2", fn="%s::fold" % op, shape="S_u8", timeout="30m")
